@@ -989,7 +989,13 @@ impl Property for P16 {
                 out.push(C16 { sink: lane.clone(), ..base(vec![it(small.clone()), it(bytes_spec_with_encoding_len(DEFAULT_MAX_LEN)), it(small.clone())]) });
                 let mut over = it(bytes_spec_with_encoding_len(DEFAULT_MAX_LEN + 1));
                 over.sync_before = true;
-                out.push(C16 { sink: lane, ..base(vec![it(small.clone()), over, Item { sync_before: true, ..it(small.clone()) }]) });
+                out.push(C16 { sink: lane.clone(), ..base(vec![it(small.clone()), over.clone(), Item { sync_before: true, ..it(small.clone()) }]) });
+                // the same through with_buffer with a buffer roomier than the limit (capacity == length, and with spare capacity):
+                // the room a caller hands in does not raise the limit
+                for init_buf in [700_000u32, 699_999] {
+                    out.push(C16 { sink: lane.clone(), init_buf, ..base(vec![it(small.clone()), over.clone(), Item { sync_before: true, ..it(small.clone()) }]) });
+                    out.push(C16 { sink: lane.clone(), init_buf, ..base(vec![it(small.clone()), it(bytes_spec_with_encoding_len(DEFAULT_MAX_LEN)), it(small.clone())]) });
+                }
             }
         }
         // a frame of more than 16 MiB (most significant prefix byte non-zero), whole and in 5 MiB pieces with a cancellation;
